@@ -14,7 +14,9 @@ import (
 	"fmt"
 	"reflect"
 	"strings"
+	"sort"
 	"sync"
+	"sync/atomic"
 	"time"
 	"unicode"
 
@@ -72,11 +74,11 @@ func (p *Probe) Update(id int64, data map[string]interface{}) (interface{}, erro
 	return p.rec("Update", id, data)
 }
 func (p *Probe) Count(column string, value interface{}) int64 { p.rec("Count"); return 1 }
-func (p *Probe) Insert(rows []interface{}) error               { p.rec("Insert"); return nil }
-func (p *Probe) Expire(key string, seconds int) bool           { p.rec("Expire"); return true }
-func (p *Probe) Table(name string) *Probe                      { p.rec("Table"); return p }
-func (p *Probe) Where(f func(int) bool) string                 { p.rec("Where"); return "w" }
-func (p *Probe) Select(p2 *Probe, ch chan int) float64         { p.rec("Select"); return 0 }
+func (p *Probe) Insert(rows []interface{}) error              { p.rec("Insert"); return nil }
+func (p *Probe) Expire(key string, seconds int) bool          { p.rec("Expire"); return true }
+func (p *Probe) Table(name string) *Probe                     { p.rec("Table"); return p }
+func (p *Probe) Where(f func(int) bool) string                { p.rec("Where"); return "w" }
+func (p *Probe) Select(p2 *Probe, ch chan int) float64        { p.rec("Select"); return 0 }
 
 // spelled like dangerous Go methods: never allow-listed
 func (p *Probe) Close(a ...interface{}) (interface{}, error)       { return p.rec("Close", a...) }
@@ -117,7 +119,37 @@ func c12Methods(obj interface{}) []string {
 
 // allowListed: the allow-list is taken from the running code (the global fallback list
 // that IsProviderMethodAllowed consults for an unregistered provider type).
-func c12Allowed(name string) bool { return interpreter.IsProviderMethodAllowed("\x00unregistered", name) }
+//
+// The answer for every name is taken ONCE per process, before anything registers a custom
+// provider (c12Snapshot): what one provider registers must not widen what another exposes.
+func c12Allowed(name string) bool {
+	c12SnapOnce.Do(c12Snapshot)
+	c12SnapMu.Lock()
+	defer c12SnapMu.Unlock()
+	if v, ok := c12Snap[name]; ok {
+		return v
+	}
+	v := interpreter.IsProviderMethodAllowed("\x00unregistered", name)
+	c12Snap[name] = v
+	return v
+}
+
+var c12SnapOnce sync.Once
+var c12SnapMu sync.Mutex
+var c12Snap = map[string]bool{}
+var c12Registered atomic.Bool
+
+func c12Snapshot() {
+	names := c12Methods(&Probe{})
+	for _, obj := range c12RealProviders() {
+		names = append(names, c12Methods(obj)...)
+	}
+	for _, n := range names {
+		for _, sp := range append(c12Spellings(n), n) {
+			c12Snap[sp] = interpreter.IsProviderMethodAllowed("\x00unregistered", sp)
+		}
+	}
+}
 
 func c12Spellings(name string) []string {
 	lowerFirst := string(unicode.ToLower(rune(name[0]))) + name[1:]
@@ -205,12 +237,29 @@ func c12Jobs() []c12Job {
 			}
 		}
 	}
-	for name, obj := range c12RealProviders() {
+	reals := c12RealProviders()
+	var realNames []string
+	for name := range reals {
+		realNames = append(realNames, name)
+	}
+	sort.Strings(realNames) // map order differs from process to process; parent and children must agree on the job list
+	for _, name := range realNames {
+		obj := reals[name]
 		for _, m := range c12Methods(obj) {
 			for _, sp := range []string{m, strings.ToLower(m), string(unicode.ToLower(rune(m[0]))) + m[1:]} {
 				jobs = append(jobs, c12Job{Kind: "lib-real", Target: name, Name: m, Spell: sp})
 			}
 			jobs = append(jobs, c12Job{Kind: "src-real", Target: name, Name: m, Spell: string(unicode.ToLower(rune(m[0]))) + m[1:], Form: "p.m(a)"})
+		}
+	}
+	// last: a custom provider registers method names that other providers also have as Go
+	// methods (Query, Close, Exec, ...). That must not make them reachable on any other provider.
+	for _, m := range c12Methods(probe) {
+		if c12Allowed(m) {
+			continue
+		}
+		for _, sp := range []string{m, strings.ToLower(m), string(unicode.ToLower(rune(m[0]))) + m[1:]} {
+			jobs = append(jobs, c12Job{Kind: "reg-probe", Target: "Probe", Name: m, Spell: sp})
 		}
 	}
 	return jobs
@@ -246,6 +295,31 @@ func c12Worker(in, out string) {
 		w.Case(mon.Hash(j), true)
 		w.Count("kind:"+j.Kind, 1)
 		switch j.Kind {
+		case "reg-probe":
+			if !c12Registered.Swap(true) {
+				c12Allowed(j.Name) // make sure the snapshot exists before the registration
+				interpreter.RegisterProviderMethods("VerifSearch", c12Methods(&Probe{}))
+				w.Count("custom_provider_registrations", 1)
+			}
+			probe := &Probe{}
+			for _, args := range [][]interface{}{{}, {"x"}, {int64(1), "y"}} {
+				var pan interface{}
+				w.Watch(fmt.Sprintf("CallMethod(probe, %q) after a custom provider registered that name", j.Spell), 30*time.Second, func() {
+					defer func() { pan = recover() }()
+					interpreter.CallMethod(probe, j.Spell, args...)
+				})
+				wit := map[string]interface{}{"job": j, "registered_by": "RegisterProviderMethods(\"VerifSearch\", <all probe method names>)"}
+				if pan != nil {
+					w.Violate("panic:CallMethod:Probe:"+c12PanicClass(pan), fmt.Sprintf("CallMethod(probe, %q) panicked: %v", j.Spell, pan), wit)
+					break
+				}
+				for _, ran := range probe.take() {
+					if !c12Allowed(ran) {
+						w.Violate("not-allow-listed-method-invoked:after-registration:"+ran, fmt.Sprintf("after a custom provider registered the method name %q, CallMethod(probe, %q) on ANOTHER provider invoked %s, which is not on that provider's allow-list", j.Name, j.Spell, ran), wit)
+					}
+				}
+			}
+			w.Count("calls_after_registration", 1)
 		case "lib-probe", "lib-real":
 			var obj interface{}
 			var probe *Probe
